@@ -2,48 +2,120 @@
 (* C06.  The library's generator (numeric.c): ONE 32-bit word XOR128_SEED.  srand_(s) stores Gen(s).  Every   *)
 (* rand_/randInt/randDouble call first READS the word into a local xorshift state and then WRITES            *)
 (* Gen(word) back - re-reading the word, exactly as the C does - and returns a function of the local copy.   *)
-(* Cross-validation workers each call srand_(own seed) and then draw.  PerThread = TRUE models a word per    *)
-(* thread, FALSE the single global word.  The three steps of a worker (seed store, read, write) are separate  *)
-(* actions so TLC explores every interleaving; `sched` records which worker moved (the schedule word that    *)
-(* the conformance harness forces onto the real threads).                                                   *)
+(* If the word was never set (it is 0), the draw first stores the WALL CLOCK into it (numeric.c:68,84,103).  *)
+(* PerThread = TRUE models a word per thread, FALSE the single global word.  The steps of a process (seed    *)
+(* store, read, write) are separate actions so TLC explores every interleaving; `sched` records which        *)
+(* process moved at every step that hook H1 can see (the schedule word that the conformance harness forces   *)
+(* onto the real threads).                                                                                  *)
+(*                                                                                                          *)
+(* Every process runs a PROGRAM over {S seed, D draw, F fork, J join}; Shape selects the orchestration that  *)
+(* was transcribed from the library:                                                                        *)
+(*   "seedDraw" S D^K          bootstrap CV worker with learner PLS / MLR / LDA: random_kfold_group_         *)
+(*                             generator seeds with srand_init = base + th + iteration_, then draws          *)
+(*                             (modelvalidation.c:45-49); also every routine that seeds and draws on the     *)
+(*                             calling thread only (KMeansRandomGroupsCV, PCARankValidation, UPLSRandom-     *)
+(*                             GroupsCV, StochasticUniversalSample, RouletteWheelselection, train_test_split) *)
+(*   "reseed"   S D^K S D^K    bootstrap CV worker with learner EPLS (modelvalidation.c:363 + epls.c:82):    *)
+(*                             the group generator seeds and draws, then EVERY ensemble member re-seeds the  *)
+(*                             worker's word through train_test_split with a seed computed from the inputs   *)
+(*                             only (epls.c:102,143: rows*testsize + scaling flags + columns, +1 per member) *)
+(*                             - all workers use the SAME re-seed values, which is why SeedOf(p, j) below    *)
+(*                             depends on the process only for j = 1                                         *)
+(*   "unseeded" D^K            LeaveOneOut / KFoldCV worker with learner EPLS and the fixed random subspace  *)
+(*                             method (modelvalidation.c:766 + epls.c:164-169): a fresh thread shuffles the  *)
+(*                             feature ids with randInt and nobody ever called srand_ on that thread         *)
+(*   "forkjoin" caller: S F J D^K, workers: S D^K                                                            *)
+(*                             y-scrambling (modelvalidation.c:1552-1641): the calling thread seeds, starts  *)
+(*                             CV workers that seed and draw themselves, joins them, and only then draws its *)
+(*                             own shuffle.  KMeans / KMeans++ / EPLS called directly are the degenerate     *)
+(*                             case in which the workers' programs are empty (they never touch the word).    *)
 EXTENDS Naturals, Sequences, FiniteSets, TLC, Json
-CONSTANTS NW, K, PerThread        \* NW workers 1..NW, K draws each
+CONSTANTS NW, K, PerThread, Shape        \* NW workers 1..NW, K draws per draw phase
 Workers == 1..NW
+Caller == 0
+Procs == IF Shape = "forkjoin" THEN {Caller} \cup Workers ELSE Workers
 M == 101
 Gen(s) == (5 * s + 3) % M          \* stands for generate_seed(): an injective step on a small domain
-Seed(w) == w                        \* distinct seeds, as srand_init = base + th + iteration
-Cell(w) == IF PerThread THEN w ELSE 0
-Cells == IF PerThread THEN Workers ELSE {0}
+Unset == M                          \* "no value": what a process would read from a word nobody seeded
+ClockVals == {97, 98}               \* two possible readings of the wall clock
+Rep(x, n) == [i \in 1..n |-> x]
+Prog(p) == CASE Shape = "seedDraw" -> <<"S">> \o Rep("D", K)
+             [] Shape = "reseed"   -> <<"S">> \o Rep("D", K) \o <<"S">> \o Rep("D", K)
+             [] Shape = "unseeded" -> Rep("D", K)
+             [] Shape = "forkjoin" -> IF p = Caller THEN <<"S", "F", "J">> \o Rep("D", K) ELSE <<"S">> \o Rep("D", K)
+\* the j-th seed a process passes to srand_: distinct per process for the first one (base + th + iteration_),
+\* a function of the inputs only for the later ones (EPLS members)
+SeedOf(p, j) == IF j = 1 THEN p + 1 ELSE 40 + j
+Seed(w) == SeedOf(w, 1)
+Cell(p) == IF PerThread THEN p ELSE 0
+Cells == IF PerThread THEN Procs ELSE {0}
 RECURSIVE Stream(_, _)
-Stream(s, n) == IF n = 0 THEN <<>> ELSE <<s>> \o Stream(Gen(s), n - 1)   \* the words a lone worker reads
-VARIABLES word, pc, drawn, nd, sched
-vars == <<word, pc, drawn, nd, sched>>
+Stream(s, n) == IF n = 0 THEN <<>> ELSE <<s>> \o Stream(Gen(s), n - 1)   \* the words a lone process reads after the word was set to s
+\* the words process p reads when it runs its program ALONE: the stream its own seeds define
+RECURSIVE Exp(_, _, _, _, _)
+Exp(p, i, cur, j, acc) ==
+  IF i > Len(Prog(p)) THEN acc
+  ELSE IF Prog(p)[i] = "S" THEN Exp(p, i + 1, Gen(SeedOf(p, j + 1)), j + 1, acc)
+  ELSE IF Prog(p)[i] = "D" THEN Exp(p, i + 1, IF cur = Unset THEN Unset ELSE Gen(cur), j, Append(acc, cur))
+  ELSE Exp(p, i + 1, cur, j, acc)
+Expected(p) == Exp(p, 1, Unset, 0, <<>>)
+
+VARIABLES word, set, pc, ip, ns, drawn, clocked, forked, sched
+vars == <<word, set, pc, ip, ns, drawn, clocked, forked, sched>>
+NoSched == <<word, set, pc, ip, ns, drawn, clocked, forked>>      \* VIEW for the larger model-checking runs (sched is a history variable)
 Init == /\ word = [c \in Cells |-> 0]
-        /\ pc = [w \in Workers |-> "seed"]
-        /\ drawn = [w \in Workers |-> <<>>]
-        /\ nd = [w \in Workers |-> 0]
+        /\ set = [c \in Cells |-> FALSE]
+        /\ pc = [p \in Procs |-> "op"]
+        /\ ip = [p \in Procs |-> 1]
+        /\ ns = [p \in Procs |-> 0]
+        /\ drawn = [p \in Procs |-> <<>>]
+        /\ clocked = [p \in Procs |-> FALSE]
+        /\ forked = (Shape # "forkjoin")
         /\ sched = <<>>
-DoSeed(w) == /\ pc[w] = "seed"
-             /\ word' = [word EXCEPT ![Cell(w)] = Gen(Seed(w))]
-             /\ pc' = [pc EXCEPT ![w] = "read"]
-             /\ sched' = Append(sched, w)
-             /\ UNCHANGED <<drawn, nd>>
-DoRead(w) == /\ pc[w] = "read" /\ nd[w] < K
-             /\ drawn' = [drawn EXCEPT ![w] = Append(@, word[Cell(w)])]
-             /\ pc' = [pc EXCEPT ![w] = "write"]
-             /\ sched' = Append(sched, w)
-             /\ UNCHANGED <<word, nd>>
-DoWrite(w) == /\ pc[w] = "write"
-              /\ word' = [word EXCEPT ![Cell(w)] = Gen(word[Cell(w)])]   \* re-reads the word, as the C does
-              /\ nd' = [nd EXCEPT ![w] = @ + 1]
-              /\ pc' = [pc EXCEPT ![w] = "read"]
-              /\ sched' = Append(sched, w)
-              /\ UNCHANGED drawn
-Next == \E w \in Workers : DoSeed(w) \/ DoRead(w) \/ DoWrite(w)
+Finished(p) == ip[p] > Len(Prog(p))
+Ready(p, op) == /\ ~Finished(p) /\ pc[p] = "op" /\ Prog(p)[ip[p]] = op
+                /\ (p \in Workers => forked)
+Advance(p) == ip' = [ip EXCEPT ![p] = @ + 1]
+DoSeed(p) == /\ Ready(p, "S")
+             /\ word' = [word EXCEPT ![Cell(p)] = Gen(SeedOf(p, ns[p] + 1))]
+             /\ set' = [set EXCEPT ![Cell(p)] = TRUE]
+             /\ ns' = [ns EXCEPT ![p] = @ + 1]
+             /\ Advance(p)
+             /\ sched' = Append(sched, p)
+             /\ UNCHANGED <<pc, drawn, clocked, forked>>
+\* if(XOR128_SEED == 0) XOR128_SEED = time(NULL);   - no hook sees this store, so it is not a schedule letter
+DoClock(p) == /\ Ready(p, "D") /\ ~set[Cell(p)]
+              /\ \E c \in ClockVals : word' = [word EXCEPT ![Cell(p)] = c]
+              /\ set' = [set EXCEPT ![Cell(p)] = TRUE]
+              /\ clocked' = [clocked EXCEPT ![p] = TRUE]
+              /\ UNCHANGED <<pc, ip, ns, drawn, forked, sched>>
+DoRead(p) == /\ Ready(p, "D") /\ set[Cell(p)]
+             /\ drawn' = [drawn EXCEPT ![p] = Append(@, word[Cell(p)])]
+             /\ pc' = [pc EXCEPT ![p] = "write"]
+             /\ sched' = Append(sched, p)
+             /\ UNCHANGED <<word, set, ip, ns, clocked, forked>>
+DoWrite(p) == /\ pc[p] = "write"
+              /\ word' = [word EXCEPT ![Cell(p)] = Gen(word[Cell(p)])]   \* re-reads the word, as the C does
+              /\ pc' = [pc EXCEPT ![p] = "op"]
+              /\ Advance(p)
+              /\ sched' = Append(sched, p)
+              /\ UNCHANGED <<set, ns, drawn, clocked, forked>>
+DoFork == /\ Shape = "forkjoin" /\ Ready(Caller, "F") /\ forked' = TRUE /\ Advance(Caller)
+          /\ UNCHANGED <<word, set, pc, ns, drawn, clocked, sched>>
+DoJoin == /\ Shape = "forkjoin" /\ Ready(Caller, "J") /\ \A w \in Workers : Finished(w)
+          /\ Advance(Caller)
+          /\ UNCHANGED <<word, set, pc, ns, drawn, clocked, forked, sched>>
+Next == \/ \E p \in Procs : DoSeed(p) \/ DoClock(p) \/ DoRead(p) \/ DoWrite(p)
+        \/ DoFork \/ DoJoin
 Spec == Init /\ [][Next]_vars
-AllDone == \A w \in Workers : pc[w] = "read" /\ nd[w] = K
-\* the seeded stream consumed by one worker is never perturbed by another worker
-StreamIsolation == \A w \in Workers : drawn[w] = SubSeq(Stream(Gen(Seed(w)), K), 1, Len(drawn[w]))
-\* GEN: every complete schedule word (each worker owns exactly 2K+1 letters)
+AllDone == \A p \in Procs : Finished(p)
+\* the seeded stream consumed by one process is never perturbed by another: what it read so far is a prefix of the
+\* stream its own seeds define
+StreamIsolation == \A p \in Procs : drawn[p] = SubSeq(Expected(p), 1, Len(drawn[p]))
+\* results are a function of the inputs: no process ever draws from a word that was set from the wall clock
+NoClock == \A p \in Procs : ~clocked[p]
+\* the old name of the K-draw stream of a worker (kept for the seedDraw shape): Expected(w) = Stream(Gen(Seed(w)), K)
+SeedDrawStream == Shape = "seedDraw" => \A w \in Workers : Expected(w) = Stream(Gen(Seed(w)), K)
+\* GEN: every complete schedule word (one letter per hooked step of every process)
 Emit == AllDone => PrintT("@@" \o ToJson([sched |-> sched, isolated |-> StreamIsolation]))
 ====
